@@ -50,6 +50,11 @@ func genC16(t *rapid.T) interface{} {
 		p.Listeners = 30
 		sc = genScenario(t, &p)
 	}
+	if pct(t, 20, "narrow") {
+		// a container narrower than its decorators: most of them are cut off
+		sc.Cfg.Width = rapid.IntRange(1, 12).Draw(t, "narrowwidth")
+		sc.Cfg.PtyRows, sc.Cfg.PtyCols = 0, 0
+	}
 	sc.Repeat = rapid.IntRange(1, 4).Draw(t, "repeat")
 	vstat.Excluded(excludedKnown)
 	return sc
@@ -121,6 +126,9 @@ func runC16(ci interface{}) Result {
 	}
 	if hasPar(sc) {
 		r.Classes = append(r.Classes, "concurrent-clients")
+	}
+	if sc.Cfg.Width > 0 {
+		r.Classes = append(r.Classes, "narrow-container")
 	}
 	r.Nontrivial = auto || fault || tr.CancelSeq != 0 || sc.Cfg.Notifier
 	return r
